@@ -13,6 +13,7 @@ import (
 	"sort"
 	"strings"
 	"sync"
+	"sync/atomic"
 	"testing"
 	"testing/synctest"
 
@@ -122,7 +123,7 @@ func runSchedule(t *testing.T, tw *trace.Writer, c *scase, idx int, res *vh.Resu
 			groups := map[string]*grp{}
 			g := func(src string) *grp {
 				if groups[src] == nil {
-					groups[src] = &grp{tag: map[string]bool{}}
+					groups[src] = &grp{tag: map[string]bool{}, ids: []string{}}
 				}
 				return groups[src]
 			}
@@ -226,7 +227,24 @@ func runSchedule(t *testing.T, tw *trace.Writer, c *scase, idx int, res *vh.Resu
 			gateMu.Unlock()
 		}
 		origOnMap, origOnEv := down.OnMap, down.OnEv
-		down.OnMap = func(mm *gostatsd.MetricMap) { origOnMap(mm); waitGate() }
+		// a mixed batch: its parts that need a lookup reach the stage's queue only when the part that needs none has been handed on;
+		// their "enter" is logged at that moment (when the next handler returns from that hand-over)
+		var defMu sync.Mutex
+		deferred := map[string][]map[string]any{} // name of the hit part's marker counter -> enter events to log
+		down.OnMap = func(mm *gostatsd.MetricMap) {
+			origOnMap(mm)
+			waitGate()
+			defMu.Lock()
+			var evs []map[string]any
+			mm.Counters.Each(func(n, _ string, _ gostatsd.Counter) {
+				evs = append(evs, deferred[n]...)
+				delete(deferred, n)
+			})
+			defMu.Unlock()
+			for _, e := range evs {
+				tw.Emit(e)
+			}
+		}
 		down.OnEv = func(e *gostatsd.Event) { origOnEv(e); waitGate() }
 		n := 0
 		var taken []gostatsd.Source // lookups taken from IpSink and not yet answered
@@ -266,27 +284,55 @@ func runSchedule(t *testing.T, tw *trace.Writer, c *scase, idx int, res *vh.Resu
 			ci.info <- gostatsd.InstanceInfo{IP: ip, Instance: inst}
 			return true
 		}
+		var mixedInFlight atomic.Int32
 		for _, s := range c.Sched {
 			switch s.Op {
-			case "m":
-				n++
-				id := fmt.Sprintf("i%d", n)
-				gaugeSeq++
-				w := int64(1) << uint(weights[s.Src])
-				weights[s.Src]++
-				mu.Lock()
-				tsn := int64(1000 + (n*7)%5) // arrival order is not timestamp order
-				batches[id] = batchInfo{s.Src, w, gaugeSeq, tsn}
-				mu.Unlock()
+			case "m", "mall":
+				srcs := []string{s.Src}
+				if s.Op == "mall" { // a batch whose datapoints come from every source and from none: hits and misses side by side
+					srcs = []string{"x", "y", ""}
+					res.Hit("mixed-batch")
+				}
 				mm := gostatsd.NewMetricMap(false)
-				tags := gostatsd.Tags{"from:" + s.Src}
-				src := gostatsd.Source(s.Src)
-				ts := gostatsd.Nanotime(tsn)
-				mm.Receive(&gostatsd.Metric{Name: fmt.Sprintf("u%d", n), Type: gostatsd.COUNTER, Value: 1, Rate: 1, Tags: tags.Copy(), Source: src, Timestamp: ts})
-				mm.Receive(&gostatsd.Metric{Name: "sh", Type: gostatsd.COUNTER, Value: float64(w), Rate: 1, Tags: tags.Copy(), Source: src, Timestamp: ts})
-				mm.Receive(&gostatsd.Metric{Name: "g", Type: gostatsd.GAUGE, Value: gaugeSeq, Rate: 1, Tags: tags.Copy(), Source: src, Timestamp: ts})
-				tw.Emit(map[string]any{"ev": "enter", "ids": []string{id}, "src": s.Src, "kind": "m", "hit": ci.hit(src)})
-				go ch.DispatchMetricMap(ctx, mm)
+				var late []map[string]any
+				marker := ""
+				for _, sn := range srcs {
+					n++
+					id := fmt.Sprintf("i%d", n)
+					gaugeSeq++
+					w := int64(1) << uint(weights[sn])
+					weights[sn]++
+					mu.Lock()
+					tsn := int64(1000 + (n*7)%5) // arrival order is not timestamp order
+					batches[id] = batchInfo{sn, w, gaugeSeq, tsn}
+					mu.Unlock()
+					tags := gostatsd.Tags{"from:" + sn}
+					src := gostatsd.Source(sn)
+					ts := gostatsd.Nanotime(tsn)
+					mm.Receive(&gostatsd.Metric{Name: fmt.Sprintf("u%d", n), Type: gostatsd.COUNTER, Value: 1, Rate: 1, Tags: tags.Copy(), Source: src, Timestamp: ts})
+					mm.Receive(&gostatsd.Metric{Name: "sh", Type: gostatsd.COUNTER, Value: float64(w), Rate: 1, Tags: tags.Copy(), Source: src, Timestamp: ts})
+					mm.Receive(&gostatsd.Metric{Name: "g", Type: gostatsd.GAUGE, Value: gaugeSeq, Rate: 1, Tags: tags.Copy(), Source: src, Timestamp: ts})
+					ev := map[string]any{"ev": "enter", "ids": []string{id}, "src": sn, "kind": "m", "hit": ci.hit(src)}
+					if s.Op == "mall" && ci.hit(src) == "miss" {
+						late = append(late, ev)
+					} else {
+						tw.Emit(ev)
+						marker = fmt.Sprintf("u%d", n)
+					}
+				}
+				if len(late) > 0 {
+					defMu.Lock()
+					deferred[marker] = late
+					defMu.Unlock()
+				}
+				if s.Op == "mall" {
+					// the parts of a mixed batch enter the stage at different moments (the part that needs no lookup is handed on first,
+					// and the next handler may hold it): while such a dispatch has not returned the gauges are not judged
+					mixedInFlight.Add(1)
+					go func() { defer mixedInFlight.Add(-1); ch.DispatchMetricMap(ctx, mm) }()
+				} else {
+					go ch.DispatchMetricMap(ctx, mm)
+				}
 			case "e":
 				n++
 				src := gostatsd.Source(s.Src)
@@ -324,7 +370,11 @@ func runSchedule(t *testing.T, tw *trace.Writer, c *scase, idx int, res *vh.Resu
 					}
 					return int(v)
 				}
-				tw.Emit(map[string]any{"ev": "gauge", "mh": f("cloudprovider.hosts_queued|type:metric"), "eh": f("cloudprovider.hosts_queued|type:event"),
+				name := "gauge"
+				if mixedInFlight.Load() != 0 {
+					name = "gauge-while-entering"
+				}
+				tw.Emit(map[string]any{"ev": name, "mh": f("cloudprovider.hosts_queued|type:metric"), "eh": f("cloudprovider.hosts_queued|type:event"),
 					"ei": f("cloudprovider.items_queued|type:event")})
 				res.Hit("emit")
 			}
@@ -388,6 +438,8 @@ func TestSchedules(t *testing.T) {
 		pendM, pendE := map[string]bool{}, map[string]bool{}
 		for _, s := range c.Sched {
 			switch s.Op {
+			case "mall":
+				pendM["x"], pendM["y"] = true, true
 			case "m":
 				if pendE[s.Src] {
 					res.Hit("metrics-after-parked-event-same-source")
